@@ -360,7 +360,8 @@ def barrier():
 def tasks(tier):
     return [('contracts.c15', 'lock', ()), ('contracts.c15', 'rlock', ()), ('contracts.c15', 'semaphore', ()),
             ('contracts.c15', 'barrier', ()),
-            ('contracts.traces', 'transact_block', ('C15',))] + \
+            ('contracts.traces', 'transact_block', ('C15',)),
+            ('contracts.fanout_common', 'fanout_transact', ())] + \
         __import__('contracts.c03', fromlist=['x']).dependency_tasks('C15', ['add', 'delete', 'get', 'set', '__contains__'], tier=tier)    # RLock / BoundedSemaphore steps are one block each
 
 
@@ -379,4 +380,9 @@ def meta(results, tier):
 
 def post_process(results, tier):
     from contracts import c03 as _c03
-    return _c03.dependency_rename('C15', results)
+    out = []
+    for r in _c03.dependency_rename('C15', results):
+        if r['name'].startswith('C06.fanout.'):
+            r = Result('C15.' + r['name'][4:], r['kind'], r['verdict'], **{k: v for k, v in r.items() if k not in ('name', 'kind', 'verdict')})
+        out.append(r)
+    return out
